@@ -9,5 +9,6 @@ func main() {
 		"txn":      runTxn,
 		"linz":     runLinz,
 		"txnsched": runTxnSched,
+		"close":    runClose,
 	})
 }
